@@ -116,7 +116,7 @@ def run(chk: Check) -> None:
     for sname in ('_BlockStepper', '_IfStepper', '_WhileStepper'):
         c = prog.cls(f'workchains.{sname}')
         creates: Set[str] = set()
-        for f in c.vmethods.values():
+        for f in c.emethods.values():
             for x in calls_in_func(f, 'create_stepper'):
                 r = receiver_text(x)
                 if f.name == '__init__':
@@ -175,7 +175,7 @@ def run(chk: Check) -> None:
         vkey = Canon(prog, chk.ctx.calls, sf).key(v) if v is not None else None
         chk.ob('SYM-continuation', sf, v is not None and vkey == f'self.{attr}.__name__', f'{c.name} saves its continuation by name under {kv!r}', kind='saved-by-name')
         lb = loaded_bindings(ctx, lf)
-        rebind = any(isinstance(n, ast.Call) and norm(n.func) == 'getattr' and norm(n.args[0]) == 'self.process' for n in ast.walk(lf.node))
+        rebind = any(isinstance(n, ast.Call) and norm(n.func) == 'getattr' and norm(n.args[0]) in ('self.process', 'self.state_machine') for n in ast.walk(lf.node))
         chk.ob('SYM-continuation', lf, attr in lb.get(kv, set()) and rebind, f'{c.name} re-binds the continuation with getattr(process, name) from the same key', kind='rebound-from-process')
     for qual in ('process_states.Created', 'process_states.Running'):
         c = prog.cls(qual)
